@@ -1,10 +1,15 @@
 /-
 L6 — reference model of the state-machine / execution API (property C10).
 
-The API is a keyed store: two association maps ARN ↦ record (`machines`, `executions`)
-and nine actions.  `step` is *atomic by construction* (that is the property's reading):
-a handler first validates everything (`Except Str …`, the error is the documented
-`__type`) and only a successful validation commits.  Where the property is silent the
+The API is a keyed store: association maps ARN ↦ record (`machines`, `executions`) plus the
+per-execution event log the engine keeps (`histories`), and thirteen actions (the nine of the
+property, GetExecutionHistory, StartSyncExecution and — refused like any unknown action by the
+blocking front end — the asyncio-only ones).  A handler sees the stores only through lookups:
+`decideAction` is a function of the three *maps* `ARN → Option record` and answers with a
+`Verdict` (what to write, what to answer, what to publish); `step` interprets the verdict on
+the association lists, `Spec.step` (ApiSpec.lean) on plain functions.  `step` is *atomic by
+construction* (that is the property's reading): a handler first validates everything
+(`Except Str …`, the error is the documented `__type`) and only a successful validation commits.  Where the property is silent the
 model copies `rest_api_asyncio.py` / `rest_api.py`: order of the checks, Python
 truthiness of "missing" arguments, the regular expressions of the validators
 (including what `.` and `$` do with a line feed), `parse_arn`, the default of `type`,
@@ -13,10 +18,14 @@ truthiness of "missing" arguments, the regular expressions of the validators
 
 Inputs that are not the model's to decide are parameters of a step (`Env`): the wall
 clock, the uuid that names an unnamed execution, the statelint verdict on the decoded
-definition (C18 covers statelint).  `Cfg.logging` distinguishes the asyncio front end
-(handles `loggingConfiguration` and statelint) from the blocking one (neither).
+definition (C18 covers statelint), whether the broker takes the start message, and what the
+engine (or the timer) answers to an accepted StartSyncExecution.  `Cfg.logging` distinguishes
+the asyncio front end (handles `loggingConfiguration`, statelint, StartSyncExecution) from the
+blocking one (none of them).  `maxResults` / `nextToken` are read by neither front end (the
+code says TODO): a list answer is always the whole live set in one page, without `nextToken`.
 
-`Response.internalError` exists and the model never produces it (`no_internal_error`);
+`Response.internalError` exists and the model produces it only for the documented case, a
+start message the broker refused (`no_internal_error`, `internal_error_only_failed_publish`);
 the implementation's answers are compared with the model's.
 -/
 import AslModel.JsonText
@@ -70,20 +79,37 @@ structure Exec where
 structure State where
   machines : List (Str × Machine)
   executions : List (Str × Exec)
+  /-- the event log of an execution (written by the engine, read by GetExecutionHistory) -/
+  histories : List (Str × List Json)
   deriving DecidableEq, Inhabited
 
-def State.empty : State := ⟨[], []⟩
+def State.empty : State := ⟨[], [], []⟩
+
+/-- one switch per recorded, unrepaired deviation of the code (DESIGN §2.2); all off = the
+behaviour the property describes -/
+structure Quirks where
+  /-- C10-F5: CreateStateMachine does not check the ARN it forms, so it can store a machine
+  under an ARN every other action refuses as InvalidArn -/
+  createUncheckedArn : Bool := false
+  deriving DecidableEq, Inhabited
+
+def Quirks.none : Quirks := {}
 
 structure Cfg where
   region : Str
   validateAsl : Bool
-  /-- asyncio front end: `loggingConfiguration` and statelint are handled -/
+  /-- asyncio front end: `loggingConfiguration`, statelint and StartSyncExecution are handled -/
   logging : Bool
+  quirks : Quirks := {}
 
 structure Env where
   now : Int
   fresh : Str
   lintBad : Bool
+  /-- the broker refuses the start message (`publish` raises) -/
+  publishFails : Bool := false
+  /-- what the engine hands back to an accepted StartSyncExecution; `none`: the timer fired first -/
+  syncOutcome : Option Json := none
 
 structure Call where
   action : Str
@@ -95,6 +121,8 @@ inductive Response where
   | okEmpty
   | error (type : Str)
   | invalidAction
+  /-- 408 "Execution Timed Out": an accepted StartSyncExecution the engine did not finish in time -/
+  | timedOut
   | internalError
   deriving DecidableEq, Inhabited
 
@@ -103,11 +131,19 @@ def Response.isError : Response → Bool
   | .okEmpty => false
   | _ => true
 
+/-- the request was turned away (as opposed to accepted and then timed out) -/
+def Response.isRefusal : Response → Bool
+  | .error _ => true
+  | .invalidAction => true
+  | .internalError => true
+  | _ => false
+
 def Response.status : Response → Nat
   | .ok _ => 200
   | .okEmpty => 200
   | .error _ => 400
   | .invalidAction => 400
+  | .timedOut => 408
   | .internalError => 500
 
 /-! ### JSON shapes -/
@@ -266,6 +302,14 @@ def arnArg (valid : Str → Bool) (a : Option Json) : Except Str Str :=
   | some (.str s) => if valid s then .ok s else .error (S "InvalidArn")
   | _ => .error (S "InvalidArn")
 
+/-- the text repeats a member name somewhere: reading it with `dict` semantics (last value
+wins) loses something.  With `validate_asl` on, the asyncio front end reads definitions with
+`object_pairs_hook=raise_on_duplicates` and refuses these. -/
+def hasDuplicateNames (t : Str) : Bool :=
+  match parseValue (t.length + 1) t with
+  | some (v, _) => decide (normalise v ≠ v)
+  | none => false
+
 /-- decode a `definition` argument that is present and non-empty -/
 def decodeDefinition (cfg : Cfg) (env : Env) (j : Json) : Except Str Json :=
   match j with
@@ -274,7 +318,8 @@ def decodeDefinition (cfg : Cfg) (env : Env) (j : Json) : Except Str Json :=
     match parseJson t with
     | none => .error (S "InvalidDefinition")
     | some d =>
-      if cfg.logging && cfg.validateAsl && env.lintBad then .error (S "InvalidDefinition")
+      if cfg.logging && cfg.validateAsl && (env.lintBad || hasDuplicateNames t) then
+        .error (S "InvalidDefinition")
       else .ok d
   | _ => .error (S "InvalidDefinition")
 
@@ -295,7 +340,10 @@ def checkLogging (lc : Json) : Except Str Json :=
     | _ => .error (S "InvalidLoggingConfiguration")
   | _ => .error (S "InvalidLoggingConfiguration")
 
-/-! ### the nine actions: validation, then commit -/
+/-! ### the actions: validation against the maps, then a verdict -/
+
+/-- a store as the handlers see it: `ARN ↦ record`, nothing else -/
+abbrev Lk (α : Type) := Str → Option α
 
 /-- CreateStateMachine, the arguments that name the machine: (ARN, name, role, type) -/
 def createKey (cfg : Cfg) (p : Params) : Except Str (Str × Str × Str × Str) :=
@@ -308,6 +356,9 @@ def createKey (cfg : Cfg) (p : Params) : Except Str (Str × Str × Str × Str) :
       match roleAccount role with
       | none => .error (S "InvalidArn")
       | some account =>
+        -- the ARN the other actions will be given must be one they accept (C10-F5 when not checked)
+        if !cfg.quirks.createUncheckedArn && !validSmArn (smArnOf cfg.region account name) then
+          .error (S "InvalidArn") else
         match (arg p "type").getD (jstr "STANDARD") with
         | .str ty =>
           if !(ty = S "STANDARD" || ty = S "EXPRESS") then .error (S "StateMachineTypeNotSupported")
@@ -324,11 +375,11 @@ def createLogging (cfg : Cfg) (p : Params) : Except Str (Option Json) :=
   else .ok none
 
 /-- CreateStateMachine: the key and the record to store -/
-def validateCreate (cfg : Cfg) (env : Env) (s : State) (p : Params) : Except Str (Str × Machine) :=
+def validateCreate (cfg : Cfg) (env : Env) (ms : Lk Machine) (p : Params) : Except Str (Str × Machine) :=
   match createKey cfg p with
   | .error e => .error e
   | .ok (arn, name, role, ty) =>
-    if (lookup s.machines arn).isSome then .error (S "StateMachineAlreadyExists") else
+    if (ms arn).isSome then .error (S "StateMachineAlreadyExists") else
     match decodeDefinition cfg env ((arg p "definition").getD (.str [])) with
     | .error e => .error e
     | .ok d =>
@@ -357,11 +408,11 @@ def updLogging (cfg : Cfg) (p : Params) : Except Str (Option Json) :=
   | .ok lc => .ok (some lc)
 
 /-- UpdateStateMachine: the key and the new record -/
-def validateUpdate (cfg : Cfg) (env : Env) (s : State) (p : Params) : Except Str (Str × Machine) :=
+def validateUpdate (cfg : Cfg) (env : Env) (ms : Lk Machine) (p : Params) : Except Str (Str × Machine) :=
   match arnArg validSmArn (arg p "stateMachineArn") with
   | .error e => .error e
   | .ok arn =>
-    match lookup s.machines arn with
+    match ms arn with
     | none => .error (S "StateMachineDoesNotExist")
     | some m =>
       match updRole p with
@@ -402,10 +453,8 @@ def execMatches (arn : Str) (f : Option Json) (e : Exec) : Bool :=
   | none => true
   | some j => j = .str e.status
 
-def listExecutions (s : State) (arn : Str) (f : Option Json) : List Json :=
-  (s.executions.filter (fun kv => execMatches arn f kv.2)).map (fun kv => Exec.summary kv.1 kv.2)
-
-/-- StartExecution, the arguments checked before the machine is looked up: (ARN, name, input) -/
+/-- StartExecution / StartSyncExecution, the arguments checked before the machine is looked up:
+(ARN, name, input) -/
 def startArgs (env : Env) (p : Params) : Except Str (Str × Str × Json) :=
   match arnArg validSmArn (arg p "stateMachineArn") with
   | .error e => .error e
@@ -423,12 +472,12 @@ def startArgs (env : Env) (p : Params) : Except Str (Str × Str × Json) :=
     | _ => .error (S "InvalidName")
 
 /-- StartExecution: (execution ARN, name, decoded input, machine ARN, machine) -/
-def validateStart (env : Env) (s : State) (p : Params) :
+def validateStart (env : Env) (ms : Lk Machine) (p : Params) :
     Except Str (Str × Str × Json × Str × Machine) :=
   match startArgs env p with
   | .error e => .error e
   | .ok (arn, name, input) =>
-    match lookup s.machines arn with
+    match ms arn with
     | none => .error (S "StateMachineDoesNotExist")
     | some m =>
       match parseArn arn with
@@ -436,87 +485,203 @@ def validateStart (env : Env) (s : State) (p : Params) :
       | some (region, account, resource) =>
         .ok (execArnOf region account resource name, name, input, arn, m)
 
-/-- the start event handed to the event dispatcher (the projection the API determines) -/
-def startEvent (x : Str × Str × Json × Str × Machine) : Json :=
+/-- StartSyncExecution: everything StartExecution asks, and the machine must be EXPRESS -/
+def validateStartSync (env : Env) (ms : Lk Machine) (p : Params) :
+    Except Str (Str × Str × Json × Str × Machine) :=
+  match validateStart env ms p with
+  | .error e => .error e
+  | .ok (earn, name, input, arn, m) =>
+    if m.type = S "EXPRESS" then .ok (earn, name, input, arn, m)
+    else .error (S "StateMachineTypeNotSupported")
+
+/-- the start event handed to the event dispatcher (the projection the API determines);
+`shared`: published to the queue all engine instances share (StartExecution) or to this
+instance's own queue (StartSyncExecution, whose answer this instance must give) -/
+def startEvent (shared : Bool) (x : Str × Str × Json × Str × Machine) : Json :=
   match x with
   | (earn, name, input, arn, m) =>
     .obj [(S "data", input),
           (S "Execution", .obj [(S "Id", .str earn), (S "Input", input), (S "Name", .str name),
                                 (S "RoleArn", .str m.roleArn)]),
-          (S "StateMachine", .obj [(S "Id", .str arn), (S "Name", .str m.name)])]
+          (S "StateMachine", .obj [(S "Id", .str arn), (S "Name", .str m.name)]),
+          (S "shared", .bool shared)]
 
+/-- what a handler writes -/
+inductive Effect where
+  | none
+  | putMachine (arn : Str) (m : Machine)
+  | delMachine (arn : Str)
+  deriving DecidableEq, Inhabited
+
+/-- what a handler answers -/
 inductive Reply where
   | json (j : Json)
   | empty
+  /-- every stored machine, summarised -/
+  | machines
+  /-- every stored execution of the machine whose status passes the filter, summarised -/
+  | executions (arn : Str) (filter : Option Json)
+  /-- accepted StartSyncExecution: the engine's answer, or the timer's -/
+  | sync
+  /-- the start message could not be published -/
+  | publishFailed
+  deriving DecidableEq, Inhabited
 
-/-- one action on an object body -/
-def handle (cfg : Cfg) (env : Env) (s : State) (action : Str) (p : Params) :
-    Option (Except Str (State × Reply)) :=
-  if action = S "CreateStateMachine" then some <|
-    match validateCreate cfg env s p with
+structure Verdict where
+  effect : Effect
+  reply : Reply
+  publish : Option Json
+  deriving DecidableEq, Inhabited
+
+def Verdict.read (j : Json) : Verdict := ⟨.none, .json j, none⟩
+
+/-- a start that passed validation: publish, unless the broker refuses -/
+def startVerdict (env : Env) (shared : Bool) (x : Str × Str × Json × Str × Machine)
+    (answer : Reply) : Verdict :=
+  if env.publishFails then ⟨.none, .publishFailed, none⟩
+  else ⟨.none, answer, some (startEvent shared x)⟩
+
+/-- the actions of the model -/
+inductive Action where
+  | create | update | delete | describe | describeForExecution | list
+  | start | startSync | listExecutions | describeExecution | history
+  deriving DecidableEq, Inhabited
+
+def Action.name : Action → Str
+  | .create => S "CreateStateMachine"
+  | .update => S "UpdateStateMachine"
+  | .delete => S "DeleteStateMachine"
+  | .describe => S "DescribeStateMachine"
+  | .describeForExecution => S "DescribeStateMachineForExecution"
+  | .list => S "ListStateMachines"
+  | .start => S "StartExecution"
+  | .startSync => S "StartSyncExecution"
+  | .listExecutions => S "ListExecutions"
+  | .describeExecution => S "DescribeExecution"
+  | .history => S "GetExecutionHistory"
+
+def Action.all : List Action :=
+  [.create, .update, .delete, .describe, .describeForExecution, .list, .start, .startSync,
+   .listExecutions, .describeExecution, .history]
+
+/-- dispatch on the `x-amz-target` action name -/
+def actionOf (a : Str) : Option Action := Action.all.find? (fun k => k.name = a)
+
+/-- one action on an object body, as a function of the three maps.
+`none`: the front end has no such action. -/
+def decideKind (cfg : Cfg) (env : Env) (ms : Lk Machine) (es : Lk Exec) (hs : Lk (List Json))
+    (p : Params) : Action → Option (Except Str Verdict)
+  | .create => some <|
+    match validateCreate cfg env ms p with
     | .error e => .error e
     | .ok (arn, m) =>
-      .ok ({ s with machines := insert s.machines arn m },
-           .json (.obj [(S "creationDate", .num m.creationDate), (S "stateMachineArn", .str arn)]))
-  else if action = S "UpdateStateMachine" then some <|
-    match validateUpdate cfg env s p with
+      .ok ⟨.putMachine arn m,
+           .json (.obj [(S "creationDate", .num m.creationDate), (S "stateMachineArn", .str arn)]), none⟩
+  | .update => some <|
+    match validateUpdate cfg env ms p with
     | .error e => .error e
     | .ok (arn, m) =>
-      .ok ({ s with machines := insert s.machines arn m },
-           .json (.obj [(S "updateDate", .num m.updateDate)]))
-  else if action = S "DeleteStateMachine" then some <|
+      .ok ⟨.putMachine arn m, .json (.obj [(S "updateDate", .num m.updateDate)]), none⟩
+  | .delete => some <|
     match arnArg validSmArn (arg p "stateMachineArn") with
     | .error e => .error e
     | .ok arn =>
-      match lookup s.machines arn with
+      match ms arn with
       | none => .error (S "StateMachineDoesNotExist")
-      | some _ => .ok ({ s with machines := erase s.machines arn }, .empty)
-  else if action = S "DescribeStateMachine" then some <|
+      | some _ => .ok ⟨.delMachine arn, .empty, none⟩
+  | .describe => some <|
     match arnArg validSmArn (arg p "stateMachineArn") with
     | .error e => .error e
     | .ok arn =>
-      match lookup s.machines arn with
+      match ms arn with
       | none => .error (S "StateMachineDoesNotExist")
-      | some m => .ok (s, .json (m.describe arn))
-  else if action = S "DescribeStateMachineForExecution" then some <|
+      | some m => .ok (.read (m.describe arn))
+  | .describeForExecution => some <|
     match arnArg validExecArn (arg p "executionArn") with
     | .error e => .error e
     | .ok earn =>
-      match lookup s.executions earn with
+      match es earn with
       | none => .error (S "ExecutionDoesNotExist")
       | some e =>
         if !validSmArn e.stateMachineArn then .error (S "InvalidArn") else
-        match lookup s.machines e.stateMachineArn with
+        match ms e.stateMachineArn with
         | none => .error (S "StateMachineDoesNotExist")
-        | some m => .ok (s, .json (m.forExecution e.stateMachineArn))
-  else if action = S "ListStateMachines" then some <|
-    .ok (s, .json (.obj [(S "stateMachines", .arr (s.machines.map (fun kv => Machine.summary kv.1 kv.2)))]))
-  else if action = S "StartExecution" then some <|
-    match validateStart env s p with
+        | some m => .ok (.read (m.forExecution e.stateMachineArn))
+  | .list =>
+    -- `maxResults` / `nextToken` are not read
+    some (.ok ⟨.none, .machines, none⟩)
+  | .start => some <|
+    match validateStart env ms p with
     | .error e => .error e
-    | .ok (earn, _) =>
-      .ok (s, .json (.obj [(S "executionArn", .str earn), (S "startDate", .num env.now)]))
-  else if action = S "ListExecutions" then some <|
+    | .ok x =>
+      .ok (startVerdict env true x
+        (.json (.obj [(S "executionArn", .str x.1), (S "startDate", .num env.now)])))
+  | .startSync =>
+    if !cfg.logging then none else some <|
+    match validateStartSync env ms p with
+    | .error e => .error e
+    | .ok x => .ok (startVerdict env false x .sync)
+  | .listExecutions => some <|
     match arnArg validSmArn (arg p "stateMachineArn") with
     | .error e => .error e
     | .ok arn =>
-      match lookup s.machines arn with
+      match ms arn with
       | none => .error (S "StateMachineDoesNotExist")
-      | some _ =>
-        .ok (s, .json (.obj [(S "executions",
-          .arr (listExecutions s arn (statusFilter (arg p "statusFilter"))))]))
-  else if action = S "DescribeExecution" then some <|
+      | some _ => .ok ⟨.none, .executions arn (statusFilter (arg p "statusFilter")), none⟩
+  | .describeExecution => some <|
     match arnArg validExecArn (arg p "executionArn") with
     | .error e => .error e
     | .ok earn =>
-      match lookup s.executions earn with
+      match es earn with
       | none => .error (S "ExecutionDoesNotExist")
-      | some e => .ok (s, .json (e.toJson earn))
-  else none
+      | some e => .ok (.read (e.toJson earn))
+  | .history => some <|
+    match arnArg validExecArn (arg p "executionArn") with
+    | .error e => .error e
+    | .ok earn =>
+      -- `if not history`: no log, or an empty one
+      match hs earn with
+      | none => .error (S "ExecutionDoesNotExist")
+      | some [] => .error (S "ExecutionDoesNotExist")
+      | some (ev :: log) =>
+        .ok (.read (.obj [(S "events",
+          .arr (if truthyArg (arg p "reverseOrder") then (ev :: log).reverse else ev :: log))]))
 
-/-- actions the front ends implement but this model does not cover -/
-def otherActions : List Str :=
-  [S "StartSyncExecution", S "GetExecutionHistory", S "SendTaskSuccess", S "SendTaskFailure"]
+def decideAction (cfg : Cfg) (env : Env) (ms : Lk Machine) (es : Lk Exec) (hs : Lk (List Json))
+    (action : Str) (p : Params) : Option (Except Str Verdict) :=
+  match actionOf action with
+  | none => none
+  | some k => decideKind cfg env ms es hs p k
+
+/-! ### the reference model: the verdict interpreted on association lists -/
+
+def listExecutions (s : State) (arn : Str) (f : Option Json) : List Json :=
+  (s.executions.filter (fun kv => execMatches arn f kv.2)).map (fun kv => Exec.summary kv.1 kv.2)
+
+def State.apply (s : State) : Effect → State
+  | .none => s
+  | .putMachine arn m => { s with machines := insert s.machines arn m }
+  | .delMachine arn => { s with machines := erase s.machines arn }
+
+def State.answer (env : Env) (s : State) : Reply → Response
+  | .json j => .ok j
+  | .empty => .okEmpty
+  | .machines =>
+    .ok (.obj [(S "stateMachines", .arr (s.machines.map (fun kv => Machine.summary kv.1 kv.2)))])
+  | .executions arn f => .ok (.obj [(S "executions", .arr (listExecutions s arn f))])
+  | .sync =>
+    match env.syncOutcome with
+    | some detail => .ok detail
+    | none => .timedOut
+  | .publishFailed => .internalError
+
+/-- one action on an object body -/
+def handle (cfg : Cfg) (env : Env) (s : State) (action : Str) (p : Params) :
+    Option (Except Str Verdict) :=
+  decideAction cfg env (lookup s.machines) (lookup s.executions) (lookup s.histories) action p
+
+/-- actions the asyncio front end implements but this model does not cover (C15 does) -/
+def otherActions : List Str := [S "SendTaskSuccess", S "SendTaskFailure"]
 
 /-- the reference model: one request -/
 def step (cfg : Cfg) (env : Env) (s : State) (c : Call) : State × Response :=
@@ -525,33 +690,36 @@ def step (cfg : Cfg) (env : Env) (s : State) (c : Call) : State × Response :=
     match handle cfg env s c.action p with
     | none => (s, .invalidAction)
     | some (.error e) => (s, .error e)
-    | some (.ok (s', .json j)) => (s', .ok j)
-    | some (.ok (s', .empty)) => (s', .okEmpty)
+    | some (.ok v) => (s.apply v.effect, s.answer env v.reply)
   | _ => (s, .error (S "SerializationException"))
 
 /-- what a request hands to the event dispatcher -/
-def published (env : Env) (s : State) (c : Call) : Option Json :=
+def published (cfg : Cfg) (env : Env) (s : State) (c : Call) : Option Json :=
   match c.params with
   | some (.obj p) =>
-    if c.action = S "StartExecution" then
-      match validateStart env s p with
-      | .ok x => some (startEvent x)
-      | .error _ => none
-    else none
+    match handle cfg env s c.action p with
+    | some (.ok v) => v.publish
+    | _ => none
   | _ => none
 
 /-- the engine (not the API) records an execution -/
 def engineWrite (s : State) (arn : Str) (e : Exec) : State :=
   { s with executions := insert s.executions arn e }
 
+/-- the engine (not the API) sets the event log of an execution -/
+def engineLog (s : State) (arn : Str) (log : List Json) : State :=
+  { s with histories := insert s.histories arn log }
+
 /-- a history: API requests (each with its environment) and engine writes -/
 inductive Event where
   | call (env : Env) (c : Call)
   | engine (arn : Str) (e : Exec)
+  | engineLog (arn : Str) (log : List Json)
 
 def apply (cfg : Cfg) (s : State) : Event → State
   | .call env c => (step cfg env s c).1
   | .engine arn e => engineWrite s arn e
+  | .engineLog arn log => engineLog s arn log
 
 def run (cfg : Cfg) (s : State) : List Event → State
   | [] => s
